@@ -1092,6 +1092,9 @@ func (fr *Frame) enterLoop(li *loopInfo, preds []*ssa.BasicBlock, edges []string
 				// non-escaping and not written in the loop are handled by row sets, so
 				// here only the "allocated inside the loop" frame can be kept
 				nm := vc.freshRaw("M_"+k+"_loop", memSort(s))
+				if vc.monotoneSort(s) {
+					vc.assertMonotone(nm, pm)
+				}
 				if fr.onlyAllocWrites(li, s) {
 					// arrays that self-appended slice variables bring into the loop may be written in place
 					for b := range li.body {
